@@ -29,7 +29,7 @@ INVARIANT Emit
 CHECK_DEADLOCK FALSE
 """
 TRACE_CFG = 'CONSTANTS Dev = {}\nINIT TInit\nNEXT TNext\nCHECK_DEADLOCK FALSE\n'
-EX_BOUNDS = {'quick': [dict(N=4, MaxCons=3, MaxChain=2)], 'thorough': [dict(N=5, MaxCons=4, MaxChain=2)]}
+EX_BOUNDS = {'quick': [dict(N=4, MaxCons=3, MaxChain=2)], 'thorough': [dict(N=5, MaxCons=3, MaxChain=2)]}
 BIN_BOUNDS = {'quick': [dict(R=4, V=5, Same='FALSE'), dict(R=4, V=4, Same='TRUE')],
               'thorough': [dict(R=5, V=7, Same='FALSE'), dict(R=4, V=6, Same='TRUE')]}
 MC_MODES = ['det-none', 'det-optimal', 'mk-none-1-2', 'mk-optimal-1-1', 'mk-none-0-1', 'mk-none-1-2-nf']
@@ -96,6 +96,11 @@ def run(prop, tier, seed, replay=None):
                     rep.add_mc('MC_Extract %s' % json.dumps(b, sort_keys=True), r,
                                'all trees, labels {A,B}: instantiation, fan-out, counts, flow, context-free iff continuous')
                     trees.extend(c['tree'] for c in r.cases)
+                if len(trees) > 150000:
+                    # TLC has checked the reference extraction on every tree; the replay on the real code takes a
+                    # seeded sample of them (memory and time of the harness, not of the model checker)
+                    rep.extra['replay_sampled'] = {'trees_enumerated': len(trees), 'trees_replayed': 150000}
+                    trees = rnd.sample(trees, 150000)
                 # the tree the bracket reader delivers for a one-token sentence without a wrapping root, `(A w)`:
                 # a single node that is root and token at once
                 trees[0:0] = [{'n': 1, 'nodes': [{'y': [1], 'd': 0, 'tok': True,
